@@ -1,0 +1,37 @@
+//go:build verif
+
+// Machine-checked contracts for package avro (comment-only; read by /verif/govc).
+// This file is compiled only under the build tag "verif" and contains no code.
+
+package avro
+
+//@ global errOverflow != nil
+
+// ---------------------------------------------------------------- buffer.go: ReadBuf
+
+//@ func (*ReadBuf).ReadByte
+//@   let i0 := d.i
+//@   requires d != nil && 0 <= d.i && d.i <= len(d.buf)
+//@   ensures [C06,C17] i0 <  len(d.buf) ==> err == nil && res == d.buf[i0] && d.i == i0+1
+//@   ensures [C06,C17] i0 >= len(d.buf) ==> err != nil && d.i == i0
+//@   modifies d.i
+
+//@ func (*ReadBuf).uvarint
+//@   let i0 := d.i, n := len(d.buf)
+//@   requires d != nil && 0 <= d.i && d.i <= len(d.buf)
+//@   ensures [C17,C06] i0 <= d.i && d.i <= n
+//@   ensures [C17] err == nil ==> uvOK(d.buf, i0, d.i) && res == pv(d.buf, i0, d.i - i0)
+//@   ensures [C17] err != nil ==> uvBad(d.buf, i0, d.i, n)
+//@   modifies d.i
+//@   loop 1 invariant 0 <= i && i <= n - i0 && d.i == i0 + i
+//@   loop 1 invariant forall k int :: i0 <= k && k < i0 + i ==> d.buf[k] >= 0x80
+//@   loop 1 invariant i <= 10 ==> s == uint(7*i) && x == pv(d.buf, i0, i)
+//@   loop 1 decreases n - d.i
+
+//@ func (*ReadBuf).Varint
+//@   let i0 := d.i, n := len(d.buf)
+//@   requires d != nil && 0 <= d.i && d.i <= len(d.buf)
+//@   ensures [C17,C06] i0 <= d.i && d.i <= n
+//@   ensures [C17] err == nil ==> uvOK(d.buf, i0, d.i) && res == unzz(pv(d.buf, i0, d.i - i0))
+//@   ensures [C17] err != nil ==> uvBad(d.buf, i0, d.i, n)
+//@   modifies d.i
